@@ -108,8 +108,11 @@ func batchBody(p batchParams, out *batchObs) func() {
 				cl.KeyScript[k] = append(cl.KeyScript[k], outcomeClass[c])
 			}
 		}
-		if p.pre == "merge" {
+		if p.pre == "merge" || p.pre == "merge-half" {
 			for _, k := range p.keys {
+				if p.pre == "merge-half" && k >= "m" {
+					continue // only the first region is known to the client
+				}
 				g, _ := hrpc.NewGetStr(context.Background(), "t", k)
 				if _, err := w.client.Get(g); err != nil {
 					panic("warm-up failed: " + err.Error())
